@@ -65,17 +65,20 @@ def _work(job):
 def run_e_level(prop, tier):
     crates, paths, info = build.mir_facts(tier)
     if info['fails']:
-        return None, {'error': 'corpus did not compile', 'fails': info['fails']}
+        return None, {'error': 'corpus did not compile', 'fails': info['fails']}, info, crates
     jobs = []
+    sel = props.SELECT.get(prop)
     for cn, c in crates.items():
         if cn not in paths:
-            return None, {'error': f'no facts for corpus crate {cn}'}
-        decls = props.select(prop, c['decls']) if hasattr(props, 'select') else c['decls']
+            return None, {'error': f'no facts for corpus crate {cn}'}, info, crates
+        decls = [d for d in c['decls'] if sel is None or sel(cn, c, d)]
         if decls:
             jobs.append((prop, cn, paths[cn], decls))
+    if not jobs:
+        return [], None, info, crates
     with multiprocessing.Pool(min(16, len(jobs))) as pool:
         results = pool.map(_work, jobs)
-    return results, None
+    return results, None, info, crates
 
 
 def write_replay(prop, f):
@@ -92,7 +95,9 @@ def write_replay(prop, f):
 def check(prop, tier):
     t0 = time.time()
     seed = int(os.environ.get('VERIF_SEED', '0'))
-    results, err = run_e_level(prop, tier)
+    results, err, info, crates = ([], None, {'dropped': []}, {})
+    if prop in props.E_PROPS:
+        results, err, info, crates = run_e_level(prop, tier)
     if err:
         print(f'check {prop}: cannot decide: {json.dumps(err)[:3000]}')
         return 2
@@ -105,7 +110,7 @@ def check(prop, tier):
     wfind = []
     wsamples = []
     if prop in props.W_PROPS:
-        ws = props.W_PROPS[prop]()
+        ws = props.W_PROPS[prop](tier)
         try:
             verdicts = wit.run_witnesses(ws)
         except RuntimeError as e:
@@ -127,11 +132,39 @@ def check(prop, tier):
             if not ok:
                 wfind.append({'key': f'{prop}|W|{w["id"]}|{w["what"]}', 'prop': prop, 'rule': 'W', 'decl_key': w['id'], 'what': w['what'] + ': ' + why,
                               'detail': {'source': w['src'], 'expect': w['expect'], 'errors': v['errors'][:5]}, 'decl_name': None})
+    # ---- G-level: lints over the generator source
+    gfind = []
+    gsamples = []
+    ginst = {}
+    if prop in props.G_PROPS:
+        gr = props.G_PROPS[prop](tier)
+        ginst = gr['instances']
+        gsamples = gr.get('samples', [])
+        name, got, floor = gr.get('floor', (None, 0, 0))
+        if name and got < floor:
+            print(f'check {prop}: generator lint `{name}` matched {got} sites, below the confirmed floor {floor}: anchors lost, no verdict')
+            return 2
+        for f in gr['findings']:
+            gfind.append({'key': f'{prop}|{f["rule"]}|site|{f["site"]}', 'prop': prop, 'rule': f['rule'], 'decl_key': f['site'],
+                          'what': f['what'], 'detail': f['detail'], 'decl_name': None})
+    # ---- corpus declarations the current tree refuses although the reference model accepts them
+    dfind = []
+    dv = props.DROPPED_IS_VIOLATION.get(prop)
+    for x in info.get('dropped', []):
+        c = crates.get(x['crate'])
+        if dv and c is not None and dv(x['crate'], c) and 'decl' in x and x['decl'].get('expect') != 'either':
+            dk = rules.decl_key(x['decl'])
+            dfind.append({'key': f'{prop}|R-ACCEPT|{dk}|rejected', 'prop': prop, 'rule': 'R-ACCEPT', 'decl_key': dk,
+                          'what': 'a declaration of the documented grammar is rejected by the current tree: ' + '; '.join(x['errors'])[:300],
+                          'detail': {'errors': x['errors']}, 'decl_name': x['name']})
+    unexpected = [x for x in info.get('dropped', []) if x.get('decl', {}).get('expect') != 'either']
+    if unexpected:
+        print(f'NOTE: {len(unexpected)} corpus declaration(s) do not compile on this tree and were left out of the analysis')
     known = known_findings()
-    findings = [f for r in results for f in r['findings']] + wfind
+    findings = [f for r in results for f in r['findings']] + wfind + gfind + dfind
     undecided = [u for r in results for u in r['undecided']]
-    obligations = sum(r['obligations'] for r in results) + wstats['witnesses']
-    discharged = sum(r['discharged'] for r in results) + wstats['witnesses'] - len(wfind)
+    obligations = sum(r['obligations'] for r in results) + wstats['witnesses'] + sum(ginst.values()) + len(dfind)
+    discharged = sum(r['discharged'] for r in results) + wstats['witnesses'] - len(wfind) + sum(ginst.values()) - len(gfind)
     instances = {}
     for r in results:
         for k, v in r['instances'].items():
@@ -139,6 +172,8 @@ def check(prop, tier):
     samples = [s for r in results for s in r['samples']][:10]
     if wstats['witnesses']:
         instances['W'] = wstats['witnesses']
+    instances.update(ginst)
+    samples = samples + gsamples[:3]
     new, hit = [], []
     seen_keys = {}
     for f in findings:
